@@ -248,7 +248,18 @@ impl IterConfig for StreamIterConfig {
     }
 
     fn extract_last_position(&self, commit: &CommittedEvents) -> Option<u64> {
-        commit.last_stream_version()
+        // Only events of this stream carry its versions: the last event of a
+        // multi-stream transaction may belong to another stream
+        match commit {
+            CommittedEvents::Single(event) => {
+                (event.stream_id == self.stream_id).then_some(event.stream_version)
+            }
+            CommittedEvents::Transaction { events, .. } => events
+                .iter()
+                .rev()
+                .find(|event| event.stream_id == self.stream_id)
+                .map(|event| event.stream_version),
+        }
     }
 }
 
